@@ -283,7 +283,34 @@ pub fn cont_zst() {
     oblige!(rec::calls() == 0, "C01:ok_only_if_nothing_reported");
 }
 
+/// Option<T> for inner types that THEMSELVES accept null (Option<_>, (), PhantomData) and nested in a Vec: null is None at the
+/// outermost Option, whatever the inner type would have made of it
+pub fn cont_option_inner_null() {
+    reset_all(&D_CONT);
+    let n = match nd::below(4) { 0 => Node::Null, 1 => Node::Int(nd::below(3) as u64), 2 => Node::Int(300), _ => Node::Bool(true) };
+    let o = ValuePointerRef::Origin; let l = o.push_index(1); let p = Path::ROOT.idx(1);
+    let mut ex = Expect::EMPTY;
+    let want = match n { Node::Null => None, other => u8_spec(other, p, &mut ex) };
+    let r = <Option<Option<u8>> as Deserr<Rec>>::deserialize_from_value::<KV>(to_value(n), l);
+    match r { Ok(v) => { oblige!(ex.log.n == 0, "C01,C02:ok_only_if_the_payload_has_no_fault"); oblige!(v == (if matches!(n, Node::Null) { None } else { Some(want) }), "C06:none_exactly_for_null_otherwise_the_content"); }
+              Err(e) => { oblige!(ex.log.n > 0 && e.same(&rec::global()) && agree_until_stop(&e, &ex.log), "C01,C02,C04:option_reports"); } }
+    rec::reset();
+    let r = <Option<()> as Deserr<Rec>>::deserialize_from_value::<KV>(to_value(n), l);
+    match r { Ok(v) => { oblige!(matches!(n, Node::Null) && v.is_none(), "C06:none_exactly_for_null_otherwise_the_content"); } Err(e) => { oblige!(!matches!(n, Node::Null) && e.n >= 1, "C06:none_exactly_for_null_otherwise_the_content"); } }
+    rec::reset();
+    let r = <Option<std::marker::PhantomData<u8>> as Deserr<Rec>>::deserialize_from_value::<KV>(to_value(n), l);
+    oblige!(matches!(&r, Ok(v) if v.is_none() == matches!(n, Node::Null)), "C06:none_exactly_for_null_otherwise_the_content");
+    rec::reset();
+    let r = <Option<Box<Option<u8>>> as Deserr<Rec>>::deserialize_from_value::<KV>(to_value(n), l);
+    match r { Ok(v) => { oblige!(v.is_none() == matches!(n, Node::Null), "C06:none_exactly_for_null_otherwise_the_content"); } Err(_) => { oblige!(ex.log.n > 0, "C02:err_only_if_fault"); } }
+    // nested in a Vec: [n, null]
+    rec::reset();
+    put(0, n); put(1, Node::Null);
+    let r = <Vec<Option<Option<u8>>> as Deserr<Rec>>::deserialize_from_value::<KV>(to_value(Node::Seq(0, 2)), l);
+    match r { Ok(v) => { oblige!(v.len() == 2 && v[1].is_none() && v[0].is_none() == matches!(n, Node::Null), "C06:none_exactly_for_null_otherwise_the_content"); } Err(_) => { oblige!(ex.log.n > 0, "C02:err_only_if_fault"); } }
+}
+
 pub fn registry() -> Vec<(&'static str, crate::Body)> {
     vec![("cont_vec", cont_vec as crate::Body), ("cont_array2", cont_array2), ("cont_tuple2", cont_tuple2), ("cont_tuple3", cont_tuple3),
-         ("cont_option_box", cont_option_box), ("cont_sets", cont_sets), ("cont_maps", cont_maps), ("order_maps_3", order_maps_3), ("cont_cs", cont_cs), ("cont_jvalue", cont_jvalue), ("cont_zst", cont_zst)]
+         ("cont_option_box", cont_option_box), ("cont_sets", cont_sets), ("cont_maps", cont_maps), ("order_maps_3", order_maps_3), ("cont_cs", cont_cs), ("cont_jvalue", cont_jvalue), ("cont_zst", cont_zst), ("cont_option_inner_null", cont_option_inner_null)]
 }
